@@ -561,7 +561,9 @@ class HTMLBinaryInputStream(HTMLUnicodeInputStream):
         # Set the read position past the BOM if one was found, otherwise
         # set it to the start of the stream
         if encoding:
-            self.rawStream.seek(seek)
+            # a stream shorter than 3 bytes can match a UTF-16 BOM in the
+            # UTF-8 slot above; never seek past what was read
+            self.rawStream.seek(min(seek, len(string)))
             return lookupEncoding(encoding)
         else:
             self.rawStream.seek(0)
